@@ -124,6 +124,10 @@ def make_loader(Base, env):
     L.add_constructor('!q', c_seq)
     L.add_constructor('!m', c_map)
     L.add_multi_constructor('!mc:', c_multi)
+    # path resolvers keep per-document stacks in the loader while it walks the tree: the value under c/d (document 'plain')
+    # and under k*/1 (document 'long') is resolved to !s by its path
+    L.add_path_resolver('!s', ['c', 'd'], str)
+    L.add_path_resolver('!s', [(dict, 'k3'), (list, 0)], str)
     return L
 
 
@@ -140,6 +144,8 @@ def make_dumper(Base, env):
         return dumper.represent_scalar('!o2', str(data.v))
     D.add_representer(Obj, r_obj)
     D.add_multi_representer(Obj2, r_multi)
+    D.add_path_resolver('!pv', ['c', 'd'], str)         # the serializer walks with the same per-document stacks
+    D.add_path_resolver('!pk', ['k', 0])
     return D
 
 
